@@ -79,5 +79,30 @@ claim("C03", "sweep",
       "For every catalogued Emitter method x every tracker state in which it is legal x three base settings, all 2^8 / 2^16 operand values (24-bit: all 2^24 under one state, stride+edges elsewhere; thorough adds a second complete state) are emitted and compared with [opcode from harness/wdc's matrix, little-endian operand]; Len/PC must advance by the architectural length under the tracked widths; an independent decoder must read the same instruction back; for ~450k of the emits the library's disassembler and both CPUs' Step() must agree on decoding, length and (for transfers) target / pushed return address. Complete over operands, only as complete as the method catalogue (uncatalogued methods are listed in the evidence).",
       "Trusted: harness/wdc opcode matrix and harness/asmcat catalogue (method name -> mnemonic, mode, operand shape).",
       "DESIGN.md section 3 C03")
+claim("C06", "rapid-prop",
+      "model-based property test (rapid) of emitter histories with distance-solving generators; executable emitter model as oracle",
+      "Histories of instructions, data, labels (pool of 8), forward/backward/multiple/missing references, absolute jumps, duplicate definitions and an optional base run on a real emitter and on harness/asmcat's model; branch distances are solved to -129/-128/-127/+126/+127/+128. Finalize's verdict (success iff all labels defined and all rel8 in range), every patched byte, the content of the error (must name a really unresolved label or a really out-of-range branch with its origin/target/distance) and the set of bytes a failing Finalize may touch (only operand bytes, placeholder or correct patch) are checked; Finalize is called twice. Bounded histories (40 ops quick, 120 thorough).",
+      "Trusted: harness/asmcat model. Which failing reference is named and how much was patched before a failure are left open (map order).",
+      "DESIGN.md section 3 C06")
+claim("C07", "lockstep",
+      "property test (rapid) coupling the emitter with both CPUs: fetch addresses versus Emitter.PC(), plus the complete guard grid",
+      "Straight-line histories from the catalogue (no taken transfers, no PLP/RTI, branches with displacement 0, arbitrary REP/SEP masks, truthful Assume calls, refused wrong-width immediates interleaved) are emitted, loaded at their base and executed on cpu65c816 and cpualt starting with the assumed widths; the sequence of opcode-fetch addresses must equal the Emitter.PC() values recorded before each emitting call and the final m/x flags must equal the tracker. All immediate methods x all 256 tracker states are enumerated for 'refused exactly when the width disagrees, and a refused call changes nothing'.",
+      "Programs that overwrite their own bytes (counted) and block moves exceeding the step budget are excluded by construction. Mid-program Assume calls are restricted to truthful ones.",
+      "DESIGN.md section 3 C07")
+claim("C15", "rapid-prop",
+      "model-based property test (rapid): listings parsed and walked in lockstep with the model's line records",
+      "Histories with listing on (data blocks of 0..80 bytes around the 16-byte chunk size, comments up to 300 characters, labels, references, base) are listed before and after Finalize, with a buffer exactly as large as the program in a quarter of the cases: the hex listing's byte tokens must concatenate to Bytes(); every instruction/db line of the text listing must carry the model's address and exactly its bytes; labels, comments and base directives must appear where issued; both writers must return nil and leave the program unchanged.",
+      "Trusted: harness/asmcat model of line records. Comments/labels contain no line breaks; refused calls are not part of these histories.",
+      "DESIGN.md section 3 C15")
+claim("C16", "rapid-prop",
+      "differential property test (rapid): direct emitter versus Clone+Append at every kind of split point",
+      "For a drawn history and split point the head goes to an emitter A, the tail to A.Clone(), then A.Append(clone); a direct emitter D gets everything. A must be unchanged (bytes, length, PC, flags, all labels, both listings) until Append although the clone is emitted into, listed and finalised; after Append A must equal D on all observables, keep behaving like D for further calls, agree on Finalize's verdict and finalized bytes; an Append that is 1-4 bytes too large must panic and change nothing.",
+      "The oracle is the direct emitter (no model) except for classifying cross-split references. Bounded histories (30 ops quick, 80 thorough).",
+      "DESIGN.md section 3 C16")
+claim("C19", "rapid-prop",
+      "model-based property test (rapid) with capacities solved to end inside instructions; dry-run emitter compared with a buffered one",
+      "A history is run on an emitter whose capacity ends exactly at, or 1-3 bytes inside, a drawn instruction or data block (also 0 and full size): each call must be accepted iff it fits, a refused call must leave bytes, length, PC and labels untouched (and must not leave a dangling reference behind: Finalize is checked afterwards), Len <= Cap always. The same history on NewEmitter(nil, ...) must report the same PC, label addresses and flags after every call as a buffered emitter, with Len()==0.",
+      "Trusted: harness/asmcat capacity rule (accepted iff len+need <= cap).",
+      "DESIGN.md section 3 C19")
 for e in ENGINES:
     e["serves_properties"] = sorted(k for k, v in CLAIMED.items() if v["engine"] == e["name"])
